@@ -381,7 +381,7 @@ def diff_class(got, want):
 
 def cookie_case(f0, enc):
     """Which coding-line construct the file uses (part of the failure key)."""
-    if f0["layout"] == "none":
+    if f0["layout"] in ("none", "l1"):
         return "no-cookie"
     if f0["layout"] == "p2x":
         return "cookie-after-code-line"
